@@ -199,26 +199,61 @@ def plumbing(program, rep):
     hcall = None
     if len(handlers) == 1 and handlers[0].name:
         ex = handlers[0].name
-        calls = [c for c in ast.walk(handlers[0]) if isinstance(c, ast.Call)
-                 and norm(c.func) == 'self.switch']
-        if len(calls) == 1:
+        # the handler body is walked (helpers that perform the switch are
+        # followed); every path makes exactly one self.switch(handle,
+        # clear_current, clear_next) with the fields of the caught exception
+        w = Walker(program, _D(program))
+        hexits = w.run_block(lp, handlers[0].body, sl)
+        ok = bool(hexits)
+        for hx in hexits:
+            calls = [e.sym.node for _, e in _calls(hx.state.trace)
+                     if norm(e.sym.node.func) == 'self.switch']
+            if len(calls) != 1:
+                ok = False
+                continue
             hcall = calls[0]
-            a = [norm(x) for x in hcall.args]
+            args = []
+            for x in hcall.args:
+                if isinstance(x, ast.Starred) and isinstance(
+                        x.value, (ast.Tuple, ast.List)):
+                    args += list(x.value.elts)
+                elif isinstance(x, ast.Starred) and isinstance(
+                        x.value, ast.Call) and dotted(x.value.func) in \
+                        getattr(program, 'records', {}) \
+                        and not x.value.keywords:
+                    args += list(x.value.args)      # a private record
+                else:
+                    args.append(x)
+            a = [norm(x) for x in args]
             kw = {k.arg: norm(k.value) for k in hcall.keywords}
             got = {'world_handle': a[0] if a else kw.get('world_handle'),
                    'clear_current': a[1] if len(a) > 1 else kw.get(
                        'clear_current'),
                    'clear_next': a[2] if len(a) > 2 else kw.get('clear_next')}
-            ok = got == {'world_handle': f'{ex}.world_handle',
-                         'clear_current': f'{ex}.clear_current',
-                         'clear_next': f'{ex}.clear_next'}
-        # the try must enclose the process call, inside the while
+            if got != {'world_handle': f'{ex}.world_handle',
+                       'clear_current': f'{ex}.clear_current',
+                       'clear_next': f'{ex}.clear_next'}:
+                ok = False
+        # the try must enclose the process call (possibly inside a private
+        # helper that runs one frame), inside the while
         tries = [t for t in ast.walk(lp.node) if isinstance(t, ast.Try)
                  and handlers[0] in t.handlers]
-        encloses = tries and any(
-            isinstance(c, ast.Call) and isinstance(c.func, ast.Attribute)
-            and c.func.attr == 'process' for s in tries[0].body
-            for c in ast.walk(s))
+
+        def _reaches_process(node, depth=2):
+            for c in ast.walk(node):
+                if isinstance(c, ast.Call) and isinstance(
+                        c.func, ast.Attribute):
+                    if c.func.attr == 'process':
+                        return True
+                    if depth and isinstance(c.func.value, ast.Name) \
+                            and c.func.value.id == 'self':
+                        g = program.resolve_method(sl, c.func.attr)
+                        if g is not None and g.name.startswith('_') \
+                                and _reaches_process(g.node, depth - 1):
+                            return True
+            return False
+        encloses = tries and any(_reaches_process(s)
+                                 for s in tries[0].body)
         in_while = any(isinstance(wl, ast.While) and tries and tries[0] in
                        list(ast.walk(wl)) for wl in ast.walk(lp.node))
         ok = ok and bool(encloses) and in_while
@@ -403,7 +438,10 @@ def current_rules(program, rep):
               'may name a freshly loaded instance as the world being left',
               line=g.node.lineno if g else None)
     sl = program.method('SimpleLoop', 'loop', inherited=False)
-    procs = [c for c in ast.walk(sl.node) if isinstance(c, ast.Call)
+    from dlint.normalise import closure_nodes
+    procs = [c for node in closure_nodes(program, program.cls('SimpleLoop'),
+                                         sl)
+             for c in ast.walk(node) if isinstance(c, ast.Call)
              and isinstance(c.func, ast.Attribute) and c.func.attr == 'process']
     ok = len(procs) == 1 and norm(procs[0].func.value) in (
         'self._current_world', 'self.current_world')
